@@ -791,8 +791,9 @@ func main() {
 			vi := w.v(tgt, name)
 			kind := "unrestricted/orphan-mutant"
 			if w.vars[vi].H != tgt {
-				// an unacceptable orphan stops ProcessOrphans (finding 4) unless it never gets a parent
-				kind = "unrestricted/orphan-newhash"
+				// a new-hash orphan below the margin, refused or not, is inside the guard of
+				// C27_rejected_invisible_partial: ProcessOrphans drops it and goes on
+				kind = "guarded/orphan-newhash"
 				if w.vars[vi].Class == 0 && name != "height" {
 					kind = "guarded/orphan-valid-sibling-or-parentless"
 				}
@@ -840,8 +841,13 @@ func main() {
 			if g.r.Chance(1, 3) {
 				ids = ids[:len(ids)-g.r.Range(1, 4)]
 			}
-			// t1 and t2 first: the mutants (children of t2) then never wait in the orphan pool
+			// t1 first; t2 first as well (the mutants, children of t2, are then never orphans) or
+			// somewhere in the history (mutants and genuine blocks wait for it in the orphan pool)
 			pre := g.genuine(1, 2)
+			late2 := k%2 == 1
+			if late2 {
+				pre = g.genuine(1)
+			}
 			d := g.genuine(ids...)
 			for m := g.r.Range(2, 6); m > 0; m-- {
 				tgt := []int{3, idU3}[g.r.Intn(2)]
@@ -853,6 +859,10 @@ func main() {
 				pos := g.r.Intn(len(d) + 1)
 				e := [2]int{w.v(tgt, name), g.path()}
 				d = append(d[:pos], append([][2]int{e}, d[pos:]...)...)
+			}
+			if late2 {
+				pos := g.r.Intn(len(d) + 1)
+				d = append(d[:pos], append(g.genuine(2), d[pos:]...)...)
 			}
 			if g.r.Chance(1, 2) { // re-deliveries
 				for m := 0; m < 3; m++ {
